@@ -213,6 +213,9 @@ pub fn gen_object(rng: &mut Rng, idx: usize, sender: &SenderSpec, max_symbols: u
     if rng.chance(0.3) {
         o.etag = Some(format!("etag-{}-{}", idx, rng.pick(&HOSTILE_STRINGS)));
     }
+    if rng.chance(0.05) {
+        o.optel = Some(("traceparent".to_string(), format!("00-{:032x}-{:016x}-01", rng.next_u64() as u128 * 7919, rng.next_u64())));
+    }
     o.source = match rng.below(20) {
         0..=13 => SourceSpec::Buffer,
         14..=16 => {
